@@ -58,9 +58,9 @@ pub fn gen_swarm(rng: &mut Rng, profile: Profile) -> Swarm {
         init_n,
         init_l,
         honest: rng.chance(1, 2),
-        faults: rng.chance(7, 10),
+        faults: profile == Profile::Backlog || rng.chance(7, 10),
         skew: rng.range(0, 60) as i64 - 30,
-        n_ops: if many { 260 } else { rng.range(20, 150) as u32 * if long { 3 } else { 1 } },
+        n_ops: if many { 260 } else if profile == Profile::Backlog { rng.range(60, 150) as u32 } else { rng.range(20, 150) as u32 * if long { 3 } else { 1 } },
         start_s: 1_700_000_000 + rng.below(100_000_000),
         base_tx_index: rng.below(50) as u32,
         zero_ibc_ok: rng.chance(3, 10),
@@ -152,7 +152,7 @@ fn cfg_sections(rng: &mut Rng, e: &Engine) -> Vec<CfgSection> {
         v.push(CfgSection::Native { unbonding: unb, validators: (0..n).map(|_| rng.below(5) as u8).collect(), staker: rng.below(3) as u8, collector: rng.below(3) as u8, upper: rng.chance(1, 6) });
     }
     if mask & 16 != 0 {
-        v.push(CfgSection::Protocol { min_stake: *rng.pick(&[0u128, 1, 100, 1_000_000]), oracle: rng.chance(85, 100), channel: if rng.chance(1, 3) { rng.below(5000) } else { e.sw.channel }, spell: rng.below(4) as u8 });
+        v.push(CfgSection::Protocol { min_stake: *rng.pick(&[0u128, 1, 100, 1_000_000]), oracle: rng.chance(85, 100), channel: if rng.chance(1, 3) { rng.below(5000) } else { e.sw.channel }, spell: if rng.chance(1, 5) { 4 + rng.below(4) as u8 } else { rng.below(4) as u8 } });
     }
     v
 }
@@ -217,6 +217,7 @@ fn weights(p: Profile) -> W {
         Profile::Lifecycle => W { unstake: 14, submit: 16, deadline: 20, deliver: 14, config: 5, advance: 8, ..base },
         Profile::Halt => W { halt: 8, resume: 6, intruder: 6, submit: 8, deliver: 8, withdraw: 10, rewards: 8, ..base },
         Profile::Upgrade => W { migrate: 4, recover: 8, timeout: 6, fault: 6, rewards: 8, ..base },
+        Profile::Backlog => W { stake: 40, relay: 30, timeout: 6, recover: 2, rewards: 6, unstake: 2, submit: 1, deadline: 1, deliver: 1, withdraw: 1, config: 0, halt: 0, resume: 0, feew: 0, owner: 0, intruder: 0, fault: 1, stray: 1, query: 3, slash: 0, advance: 2, hostile: 0, migrate: 0, forced: 1, validators: 0 },
         Profile::ManyBatches => W { stake: 3, unstake: 40, submit: 30, deadline: 30, deliver: 4, withdraw: 2, relay: 2, timeout: 0, recover: 0, rewards: 0, config: 0, halt: 0, resume: 0, feew: 0, owner: 0, intruder: 0, fault: 0, stray: 0, query: 14, slash: 0, advance: 0, hostile: 0, migrate: 0, forced: 0, validators: 0 },
     }
 }
@@ -249,7 +250,7 @@ pub fn next_op(e: &Engine, rng: &mut Rng) -> Op {
         if claimable.is_empty() { w.withdraw / 4 } else { w.withdraw * 2 },
         if inflight + recvd == 0 { 0 } else { w.relay + 4 * (inflight + recvd).min(6) },
         if inflight == 0 || !e.sw.faults { 0 } else { w.timeout },
-        if refundable == 0 { w.recover / 4 } else { w.recover * 3 },
+        if e.sw.profile == Profile::Backlog { if refundable >= 11 { 60 } else if refundable > 0 { 1 } else { 0 } } else if refundable == 0 { w.recover / 4 } else { w.recover * 3 },
         if e.m.l == 0 { w.rewards / 4 } else { halted_mul(w.rewards) },
         w.config,
         w.halt,
@@ -344,6 +345,9 @@ pub fn next_op(e: &Engine, rng: &mut Rng) -> Op {
         _ => {}
     }
     match rng.weighted(&table) {
+        0 if rng.chance(1, 25) => Op::ExtraFunds { user: rng.below(nu) as u8, unstake: false, amount: amount(rng, e), extra_kind: rng.below(3) as u8 % 2, extra: rng.range(1, 1000) as u128 },
+        1 if rng.chance(1, 25) => Op::ExtraFunds { user: *rng.pick(&holders), unstake: true, amount: amount(rng, e), extra_kind: rng.below(3) as u8 % 2, extra: rng.range(1, 1000) as u128 },
+        0 if e.sw.profile == Profile::Backlog => Op::Stake { user: rng.below(nu) as u8, amount: amount(rng, e), rcpt: if rng.chance(1, 6) { Rcpt::Native(0) } else { Rcpt::Absent }, flag: None, expect: Expect::None, via: Via::Direct },
         0 => {
             let via = match rng.below(10) {
                 0 | 1 => Via::Proxy,
@@ -448,7 +452,7 @@ pub fn next_op(e: &Engine, rng: &mut Rng) -> Op {
             }
         }
         6 => {
-            let fail = e.sw.faults && rng.chance(1, 5);
+            let fail = if e.sw.profile == Profile::Backlog { rng.chance(9, 10) } else { e.sw.faults && rng.chance(1, 5) };
             match rng.below(6) {
                 0 if inflight > 0 => Op::RelayRecv { pkt: rng.below(8) as u8, ok: !fail },
                 1 | 2 if recvd > 0 => Op::RelayAck { pkt: rng.below(8) as u8 },
@@ -471,7 +475,7 @@ pub fn next_op(e: &Engine, rng: &mut Rng) -> Op {
         }
         8 => Op::Recover {
             caller: if rng.chance(1, 2) { Who::User(rng.below(8) as u8) } else { who_any(rng) },
-            paginated: *rng.pick(&[None, Some(true), Some(false)]),
+            paginated: if e.sw.profile == Profile::Backlog { *rng.pick(&[Some(true), Some(true), Some(true), None, Some(false)]) } else { *rng.pick(&[None, Some(true), Some(false)]) },
             receiver: match rng.below(9) {
                 8 => Some(100 + rng.below(8) as u8),
                 0..=3 => None,
